@@ -45,7 +45,7 @@ FailedC09(r) ==
                 : p \in 1..Len(r.parsed)}
 
 FailedC10(r) ==
-    CASE r.op = "kind" -> Clause("kind_ok", r.kind = RefKind(r.n, r.m, r.same = 1))
+    CASE r.op = "kinds" -> Clause("kind_ok", \A j \in 1..Len(r.rows) : r.rows[j][3] = RefKind(r.rows[j][1], r.m, r.rows[j][2] = 1))
       [] r.op = "dict" ->
             IF Has(r.out, "err") \/ r.items = <<>> \/ Has(r.out, "none") THEN {}
             ELSE LET heap == HeapOf(r.out.cell)  mp == MapOf(r) IN
